@@ -73,6 +73,27 @@ pub fn run(args: &[String], seed: u64, count: u64, w: &mut dyn Write) {
             }
             None => false,
         }),
+        "fxcrash-child" => crate::fxcrash::child_main(args),
+        "fxcrash" => {
+            let thorough = args.iter().any(|a| a == "--thorough");
+            let mut r = Rng::new(seed ^ 0xc4a5_4000);
+            for i in 0..count {
+                let mut cr = r.fork();
+                let c = crate::fxcrash::gen_case(&mut cr, i, thorough);
+                let mut s = String::new();
+                crate::fxcrash::run_case(&format!("K{}-{}", seed, i), &c, &mut s);
+                w.write_all(s.as_bytes()).unwrap();
+            }
+        }
+        "fxcrash-replay" => replay_stdin(|lines, id| match crate::fxcrash::parse_case(lines) {
+            Some(c) => {
+                let mut s = String::new();
+                crate::fxcrash::run_case(id, &c, &mut s);
+                w.write_all(s.as_bytes()).unwrap();
+                true
+            }
+            None => false,
+        }),
         f => {
             eprintln!("unknown family {}", f);
             std::process::exit(2);
